@@ -248,7 +248,7 @@ func runWorker(def *CheckDef, tier string, seed uint64, w, nw, startAfter int, g
 	if hangSec == 0 {
 		hangSec = 300
 	}
-	if buildMode == "race" {
+	if buildMode == "race" || buildMode == "asan" {
 		hangSec *= 4
 	}
 	var cur int64 = -1
@@ -400,6 +400,25 @@ func superviseCheck(def *CheckDef, tier string, seed uint64, exe string) int {
 			}
 		}
 	}
+	// AddressSanitizer pass (thorough tier): the same leading cases as the race
+	// pass in a -asan build. Go's allocator puts poisoned red zones around heap
+	// objects there and the compiler instruments every load and store, also
+	// those made through unsafe pointers: an over-read behind a leaf buffer, a
+	// key or a bitmap aborts the worker with a report, which is attributed to
+	// the journalled case.
+	asanExe := plainExe + ".asan"
+	if !def.Race && def.RaceCases != nil && tier == "thorough" {
+		if rc := def.RaceCases(tier); rc > 0 {
+			if _, err := os.Stat(asanExe); err == nil {
+				before := merged.CasesDone
+				runPass(def, tier, seed, asanExe, "asan", rc, merged, "ASAN_OPTIONS=halt_on_error=1:abort_on_error=0:detect_leaks=0:exitcode=66")
+				merged.Counters["asan_pass_cases"] = merged.CasesDone - before
+				modes = append(modes, "asan")
+			} else {
+				merged.Counters["asan_build_missing"] = 1
+			}
+		}
+	}
 	// evidence only: statement coverage of /repo reached by a quick-sized slice
 	// of the case list, from a -cover build (thorough tier, plain-mode checks)
 	coverExe := plainExe + ".cover"
@@ -506,6 +525,9 @@ func runPass(def *CheckDef, tier string, seed uint64, exe, mode string, limit in
 					last = *res.Hang
 				} else if last >= 0 {
 					fp := def.ID + "/worker-death"
+					if strings.Contains(tail, "AddressSanitizer") {
+						fp = def.ID + "/asan-report"
+					}
 					if isOOM(err, tail) && def.MemoryIsViolation {
 						merged.Deaths = append(merged.Deaths, Violation{Prop: def.ID, Fingerprint: def.ID + "/memory-blowup", CaseIdx: last,
 							Detail: map[string]interface{}{"what": "the worker's heap passed the 3 GiB ceiling while running this case (a call that neither returns nor fails)",
@@ -688,7 +710,9 @@ func tailFile(path string, n int) string {
 	}
 	// prefer the beginning of the fatal message
 	s := string(b)
-	if i := strings.Index(s, "fatal error:"); i >= 0 {
+	if i := strings.Index(s, "ERROR: AddressSanitizer"); i >= 0 {
+		s = s[i:]
+	} else if i := strings.Index(s, "fatal error:"); i >= 0 {
 		s = s[i:]
 	} else if i := strings.Index(s, "panic:"); i >= 0 {
 		s = s[i:]
